@@ -24,6 +24,9 @@ def pool_hists(seed, tier):
         hs.append([['rainbow', 'aba'], ['apply', R['W'], s, e, True]])
     hs.append([['plain', 'abc'], ['apply', R['R'], 0, 2, True], ['apply', R['B'], 1, 3, True]])
     hs.append([['plain', 'abc'], ['apply', R['o'], 0, 2, True], ['apply', R['q'], 1, 3, True]])     # non-canonical / multi-group texts
+    # two settings from the start, the inner one ending first: a piece cut at that point closes both at its end (the
+    # order of those closing markers matters for a later seam merge)
+    hs.append([['plain', 'abcd'], ['apply', R['R'], 0, 4, True], ['apply', R['W'], 0, 2, True]])
     hs.append([['ctor', 'Stra\xdfe \u0130i', R['W']]])     # characters whose case mapping changes the length, styled to the very end
     hs.append([['plain', 'abcd'], ['apply', R['R'], 0, 2, True], ['apply', R['W'], 0, 3, True], ['apply', R['U'], 0, 2, True]])     # three settings on one character
     hs.append([['plain', 'abcd'], ['apply', R['R'], 0, 4, True], ['apply', R['B'], 1, 4, True], ['apply', R['R'], 2, 3, True]])     # X, Y, X
@@ -124,7 +127,7 @@ def menu(v, seed):
                 m.append(('unformat_matching', [pat, ['SET', [R['R']]]], {'regex': rx, 'match_case': mc_, 'count': cnt}))
     m.append(('apply_formatting_for_match', [['SET', [R['G']]], ['MATCH', 'a']], {}))
     m.append(('apply_formatting_for_match', [['SET', [R['G']]], ['MATCH', '(a)(b)?'], 1], {}))
-    for other in (['lit', 'xy'], ['S', 'q', R['R']], ['T', 'q', R['R']], ['lit', ''], ['SELF']):
+    for other in (['lit', 'xy'], ['S', 'q', R['R']], ['T', 'q', R['R']], ['lit', ''], ['SELF'], ['S', 'q', R['R'], R['W']]):
         m.append(('__add__', [other], {}))
         m.append(('__iadd__', [other], {}))
         m.append(('join', [['SELF'], other], {}))
@@ -143,7 +146,7 @@ def materialise(arg, receiver, text):
     if isinstance(arg, list) and arg:
         tag = arg[0]
         if tag == 'S':
-            return AnsiString(arg[1], AnsiSetting(arg[2]))
+            return AnsiString(arg[1], *[AnsiSetting(c) for c in arg[2:]])
         if tag == 'T':
             return AnsiStr(arg[1], AnsiSetting(arg[2]))
         if tag == 'lit':
@@ -368,6 +371,17 @@ def run_task(task, acc):
             for clause, detail in bad:
                 acc.violation(clause, case, detail, sig=clause + ':ctor:' + src)
             acc.nontriv(hash((task['i'], src, si)))
+    # pieces joined with values that continue their settings
+    for k in range(1, len(v)):
+        for side in ('tail', 'head'):
+            case = {'kind': 'piececat', 'hist': h, 'k': k, 'side': side}
+            acc.current = case
+            acc.transitions += 1
+            bad = check_piece_cat(h, k, side)
+            if not bad:
+                acc.validated += 1
+            for clause, detail in bad:
+                acc.violation(clause, case, detail, sig=clause + ':piececat')
     # shared methods, depth 1 and 2
     level = [(h, [])]
     seen = {model.canon_hash(v)}
@@ -398,6 +412,31 @@ def run_task(task, acc):
                         nxt.append((hh, path + [[name, args, kwargs]]))
         level = nxt
     acc.sample({'kind': 'call', 'hist': h, 'path': [], 'call': ['center', [5, '*'], {}]})
+
+
+def check_piece_cat(h, k, side):
+    """A piece cut at k, then joined with a value that begins (ends) with exactly the settings of the piece's last (first)
+    character: the seam merge looks at details of the piece (order of its closing markers) that no single call shows."""
+    v, vs = build(h), AnsiStr(build(h))
+    try:
+        if side == 'tail':
+            a, b = v[:k], vs[:k]
+            op = AnsiString('q', *[AnsiSetting(str(x)) for x in a.ansi_settings_at(k - 1)])
+            r1, r2 = a + op, b + AnsiStr(op)
+        else:
+            a, b = v[k:], vs[k:]
+            op = AnsiString('q', *[AnsiSetting(str(x)) for x in a.ansi_settings_at(0)])
+            r1, r2 = op + a, AnsiStr(op) + b
+    except Exception as e:  # noqa
+        return [('twin-raises', 'piece %s of %d then concatenation raised %s: %s' % (side, k, type(e).__name__, e))]
+    e = compare(r1, r2, 'piece cut at %d (%s) joined with a value carrying the same settings' % (k, side))
+    if e is None:
+        for rev in (False, True):
+            for x in r1.ansi_settings_at(0) or []:
+                if r1.find_settings(x, reverse=rev) != r2.find_settings(x, reverse=rev):
+                    e = ('twin-scalar', 'piece cut at %d (%s) + value: find_settings(%s, reverse=%r) gives %r on AnsiString, %r on AnsiStr'
+                         % (k, side, x, rev, r1.find_settings(x, reverse=rev), r2.find_settings(x, reverse=rev)))
+    return [e] if e else []
 
 
 def replay_path(h, path):
@@ -449,6 +488,8 @@ def replay(case):
     _probed.clear()
     if case['kind'] == 'ctor':
         return check_ctor(case['src'], case['hist'], case['si'], 0)
+    if case['kind'] == 'piececat':
+        return check_piece_cat(case['hist'], case['k'], case['side'])
     name, args, kwargs = case['call']
     return check_path_call(case['hist'], case['path'], name, args, kwargs)[0]
 
